@@ -588,6 +588,11 @@ def check(ctx):
     from . import c08
     ctx.borrow('C07.SURFACE', c08.check_creds, only=['C08.CREDS'])
 
+    def _gate(c):
+        c08.check_gate(c, c08.check_table(c))
+    # the scope gate's verdict reaches the exit in both modes (C08.GATE)
+    ctx.borrow_soft('C07.EXIT', _gate, only=['C08.GATE'])
+
 
 def check_gate_message(ctx):
     """The credentials handed to enforce() are whatever the caller has: the
